@@ -9,9 +9,9 @@ VARIABLE l
 \* which property a rejected step is charged to: a change in an entry that was
 \* not acted on is C18 (independence); anything else about the entry itself is C17
 PropOf(e) == IF e.ev = "eq" THEN "C17"
-             ELSE IF e.ret = "panic" THEN (IF e.op.op \in {"Copy", "NewLike", "TypeCopy", "MutSlice", "TypeEdit"} THEN "C18" ELSE "C17")
+             ELSE IF e.ret = "panic" THEN (IF e.op.op \in {"Copy", "NewLike", "ZeroNew", "TypeCopy", "MutSlice", "TypeEdit"} THEN "C18" ELSE "C17")
              ELSE IF ~FrameOK(e.pre, e.op, e.post) THEN "C18"
-             ELSE IF e.op.op \in {"Copy", "NewLike", "TypeCopy", "TypeEdit"} THEN "C18"
+             ELSE IF e.op.op \in {"Copy", "NewLike", "ZeroNew", "TypeCopy", "TypeEdit"} THEN "C18"
              ELSE IF e.op.op = "DerivedNew" THEN "C17"
              ELSE "C17"
 
